@@ -473,7 +473,7 @@ func (term *TermInvoke) LLString() string {
 	}
 	buf.WriteString(")")
 	for _, attr := range term.FuncAttrs {
-		fmt.Fprintf(buf, " %s", attr)
+		fmt.Fprintf(buf, " %s", funcAttrString(attr))
 	}
 	if len(term.OperandBundles) > 0 {
 		buf.WriteString(" [ ")
@@ -645,7 +645,7 @@ func (term *TermCallBr) LLString() string {
 	}
 	buf.WriteString(")")
 	for _, attr := range term.FuncAttrs {
-		fmt.Fprintf(buf, " %s", attr)
+		fmt.Fprintf(buf, " %s", funcAttrString(attr))
 	}
 	if len(term.OperandBundles) > 0 {
 		buf.WriteString(" [ ")
